@@ -222,7 +222,11 @@ class Gen:
             oneshot = rng.choice([0.0, 0.0, 0.5]) if kind == "starmap" else 0.0
             strp = rng.choice([0.0, 0.0, 0.3]) if kind == "starmap" else 0.0
             st["elems"] = [1 if rng.random() < badp else (2 if rng.random() < emptyp else (3 if rng.random() < oneshot else
-                           (rng.choice([6, 7]) if rng.random() < strp else 0))) for _ in range(n)]
+                           (rng.choice([6, 7, 8, 8]) if rng.random() < strp else 0))) for _ in range(n)]
+            if kind == "doublestarmap" and rng.random() < 0.25:
+                # objects that `**` accepts although they are no Mapping (keys() + __getitem__); for starmap (code 8
+                # above): the old sequence protocol, no Iterable
+                st["elems"] = [8 if (e == 0 and rng.random() < 0.5) else e for e in st["elems"]]
             if n and rng.random() < self.iterx:
                 st["elems"][rng.randrange(n)] = 4        # the iterable raises when it gets here
             st["nc"] = rng.choice([1, 1, 2, 2, 3, 5])
